@@ -148,7 +148,18 @@ impl<T> RH<T> {
 }
 
 /// Creates a channel through the sync or async constructor.
-pub fn new_chan<T>(cap: Option<usize>, async_ctor: bool) -> (SH<T>, RH<T>) {
+pub fn new_chan<T: Send + 'static>(cap: Option<usize>, async_ctor: bool) -> (SH<T>, RH<T>) {
+    let (s, r) = new_chan_plain::<T>(cap, async_ctor);
+    if crate::payload::drop_probe_wanted() {
+        let p = match &s {
+            SH::S(x) => x.verif_lock_probe(),
+            SH::A(x) => x.verif_lock_probe(),
+        };
+        crate::payload::set_drop_probe(Some(p));
+    }
+    (s, r)
+}
+fn new_chan_plain<T>(cap: Option<usize>, async_ctor: bool) -> (SH<T>, RH<T>) {
     match (cap, async_ctor) {
         (Some(n), false) => {
             let (s, r) = kanal::bounded::<T>(n);
